@@ -181,6 +181,13 @@ Next ==
           /\ cache' = [n \in ToSet(e.nodes) |-> InitFull.cache]
           /\ chain' = <<>> /\ approved' = {}
           /\ hist' = [n \in ToSet(e.nodes) |-> NoHist]
+     ELSE IF e.ev \in {"stable", "liveness_verdict"}
+     THEN /\ UNCHANGED <<hdr, obs, cache, chain, approved, hist>>
+          \* C05: after stabilisation some view led by a live correct member ends in commit within the bound of timer
+          \* rounds, and every live member that accepted that view's proposal commits it
+          /\ Chk(e.ev = "liveness_verdict" => e.committed, "c05_no_commit_after_stabilisation")
+          /\ Chk(e.ev = "liveness_verdict" => e.timeouts <= 2 * e.bound + 10, "c05_commit_needed_too_many_timer_rounds")
+          /\ Chk(e.ev = "liveness_verdict" => e.acceptors_pending = <<>>, "c05_acceptor_of_committed_view_did_not_commit")
      ELSE LET n == e.n  pre == obs[n]  post == NSOf(e.post)  pr == Predict(e, n) IN
           /\ UNCHANGED hdr
           /\ obs' = [obs EXCEPT ![n] = post]
